@@ -529,10 +529,38 @@ def run(ctx):
                           "(got %s, protoc %s)" % (d["at"] or "the file", d["got"], d["protoc"]),
                           {"file": "corpus/C22/retention.proto", "element": d["at"], "got": d["got"], "protoc": d["protoc"]})
             break
-    header, terms = intern_numbers(HEADER, terms, "N")
-    mism, err = coq_eval_mismatches("cases_C22", header, terms, "ret_chk", shard_size=ctx.budget(18, 100))
+    # the model is evaluated inside coqc on the cases, in generation order (corpus first), that fit a budget of term
+    # text (reading the terms is what costs time); every case was already judged by the direct oracle above
+    budget = ctx.budget(1200000, 40000000)
+    picked, used = [], 0
+    for k, t in enumerate(terms):
+        if used + len(t) <= budget:
+            picked.append(k)
+            used += len(t)
+    ctx.extra["model_evaluated_in_coq"] = {"cases": len(picked), "of": len(terms), "term_bytes": used}
+    header, pterms = intern_numbers(HEADER, [terms[k] for k in picked], "N")
+    # shards of roughly equal text size
+    order = sorted(range(len(pterms)), key=lambda i: -len(pterms[i]))
+    nsh = max(1, min(NCPU, len(pterms) // 4))
+    shard_of = {}
+    loads = [0] * nsh
+    for i in order:
+        j = loads.index(min(loads))
+        shard_of[i] = j
+        loads[j] += len(pterms[i])
+    by_shard = sorted(range(len(pterms)), key=lambda i: shard_of[i])
+    size = max(1, max(sum(1 for i in by_shard if shard_of[i] == j) for j in range(nsh)))
+    padded = []
+    for j in range(nsh):
+        members = [i for i in by_shard if shard_of[i] == j]
+        padded += members + [None] * (size - len(members))
+    pad_term = pterms[min(range(len(pterms)), key=lambda i: len(pterms[i]))]
+    pad_from = min(range(len(pterms)), key=lambda i: len(pterms[i]))
+    mism, err = coq_eval_mismatches("cases_C22", header, [pterms[i] if i is not None else pad_term for i in padded], "ret_chk",
+                                    shard_size=size)
     if err:
         raise RuntimeError(err)
+    mism = sorted({picked[padded[k] if padded[k] is not None else pad_from] for k in mism})
     for k in mism:
         c, o = meta[k]
         ctx.corr_break("retention:strip", {"main.proto": c["files"][c["main"]], "opts.proto": c["files"].get("opts.proto"),
